@@ -367,6 +367,197 @@ def s_default_whitespace():
         return f'default whitespace is {pp.ParserElement.DEFAULT_WHITE_CHARS!r} (a newline must be significant)'
 
 
+def s_no_memo():
+    """Nothing remembers a result between calls: no functools cache, no weak/ordinary container at
+    module level, no descriptor other than property on the model classes."""
+    import collections.abc as abc
+    import importlib
+    import pkgutil
+    import pydbml
+    bad = []
+    for path in _pkg_files():
+        tree = ast.parse(open(path, encoding='utf8').read())
+        for node in ast.walk(tree):
+            ident = node.id if isinstance(node, ast.Name) else node.attr if isinstance(node, ast.Attribute) else \
+                None
+            if ident in ('lru_cache', 'cache', 'cached_property', 'WeakKeyDictionary', 'WeakValueDictionary',
+                         'WeakSet', 'singledispatch'):
+                bad.append(f'{os.path.relpath(path, REPO)}:{node.lineno} uses {ident}')
+            if isinstance(node, ast.ImportFrom) and any(a.name in ('lru_cache', 'cache', 'cached_property',
+                                                                   'WeakKeyDictionary', 'WeakValueDictionary', 'WeakSet')
+                                                        for a in node.names):
+                bad.append(f'{os.path.relpath(path, REPO)}:{node.lineno} imports a cache')
+    for m in pkgutil.walk_packages(pydbml.__path__, 'pydbml.'):
+        mod = importlib.import_module(m.name)
+        for n, v in vars(mod).items():
+            if n.startswith('__') or isinstance(v, type):
+                continue
+            if isinstance(v, (abc.MutableMapping, abc.MutableSequence, abc.MutableSet)):
+                bad.append(f'{m.name}.{n} is a module-level {type(v).__name__}')
+    import pydbml.classes as C
+    import pydbml.database as D
+    for c in [getattr(C, n) for n in C.__all__] + [D.Database]:
+        for k in c.__mro__:
+            if not k.__module__.startswith('pydbml'):
+                continue
+            for an, av in vars(k).items():
+                if hasattr(av, '__get__') and not isinstance(av, (property, staticmethod, classmethod)) and \
+                        not inspect.isfunction(av) and not an.startswith('__'):
+                    bad.append(f'{k.__name__}.{an} is a {type(av).__name__} descriptor')
+    if bad:
+        return 'memoisation or shared state: ' + ', '.join(sorted(set(bad)))
+
+
+def s_dispatch_through_cls():
+    """Methods of the renderer classes call handlers through `cls`, never through a class named
+    literally, so that a subclass configured on the database is the one that renders."""
+    from pydbml.renderer.base import BaseRenderer
+    from pydbml.renderer.sql.default.renderer import DefaultSQLRenderer
+    from pydbml.renderer.dbml.default.renderer import DefaultDBMLRenderer
+    names = {'BaseRenderer', 'DefaultSQLRenderer', 'DefaultDBMLRenderer'}
+    for c in (BaseRenderer, DefaultSQLRenderer, DefaultDBMLRenderer):
+        for an, av in vars(c).items():
+            f = getattr(av, '__func__', av)
+            if not inspect.isfunction(f):
+                continue
+            tree = _fn_ast(f)
+            for node in ast.walk(tree):
+                if isinstance(node, ast.Name) and node.id in names:
+                    return f'{c.__name__}.{an} names the class {node.id} instead of dispatching through cls'
+            if an == 'render_db' and c is not BaseRenderer:
+                calls = [n for n in ast.walk(tree) if isinstance(n, ast.Call) and isinstance(n.func, ast.Attribute)
+                         and n.func.attr == 'render']
+                if not calls or any(not (isinstance(n.func.value, ast.Name) and n.func.value.id == 'cls') for n in calls):
+                    return f'{c.__name__}.render_db does not render its pieces with cls.render'
+    # the element side: SQLObject.sql / DBMLObject.dbml pick the database's class when attached
+    from pydbml._classes.base import SQLObject, DBMLObject
+    for c, attr, rn in ((SQLObject, 'sql', 'sql_renderer'), (DBMLObject, 'dbml', 'dbml_renderer')):
+        src = ast.unparse(_fn_ast(vars(c)[attr].fget))
+        if rn not in src or '.render(self)' not in src:
+            return f'{c.__name__}.{attr} does not render through the database\'s {rn}'
+
+
+def _qs_attrs(q):
+    g = lambda *names: next((getattr(q, n) for n in names if hasattr(q, n)), None)
+    return {'quote': g('quote_char', 'quoteChar'), 'end': g('end_quote_char', 'endQuoteChar'),
+            'esc': g('esc_char', 'escChar'), 'multiline': bool(g('multiline')),
+            'convert_ws': bool(g('convert_whitespace_escapes', 'convertWhitespaceEscapes')),
+            'unquote': bool(g('unquote_results', 'unquoteResults'))}
+
+
+def s_string_tokens():
+    """The string and identifier tokens are the documented ones (C07: an unterminated string is an error
+    because only the triple-quoted form may span lines; C13: escapes)."""
+    import pyparsing as pp
+    import pydbml.definitions.generic as G
+    sl = G.string_literal
+    alts = _flat(sl, pp.Or)
+    if not isinstance(sl, pp.Or) or len(alts) != 3 or not all(isinstance(a, pp.QuotedString) for a in alts):
+        return 'string_literal is not a longest-match choice of three quoted-string forms'
+    got = sorted((a['quote'], a['esc'], a['multiline'], a['unquote']) for a in map(_qs_attrs, alts))
+    want = sorted([("'", '\\', False, True), ('"', '\\', False, True), ("'''", '\\', True, True)])
+    if got != want:
+        return f'string_literal forms are {got}, expected {want}'
+    nm = _flat(G.name, pp.MatchFirst)
+    if len(nm) != 2 or not isinstance(nm[0], pp.Word) or not isinstance(nm[1], pp.QuotedString):
+        return 'name is not (word | double-quoted string)'
+    a = _qs_attrs(nm[1])
+    if (a['quote'], a['multiline'], a['esc'] or None) != ('"', False, None):
+        return f'quoted identifiers are {a}'
+    w = nm[0]
+    chars = set(getattr(w, 'initChars', None) or getattr(w, 'init_chars', ''))
+    import string
+    if chars != set(string.ascii_letters + string.digits + '_'):
+        return 'bare identifiers are not exactly letters, digits and underscore'
+    # behaviour of the three forms on the boundary cases (exact evaluation of the live elements)
+    for text, ok in (("'a'", True), ('"a"', True), ("'''a\nb'''", True), ("'a\nb'", False), ('"a\nb"', False),
+                     ("'a", False), ('"a', False), ("'''a", False), ("'a\\'b'", True)):
+        try:
+            sl.parse_string(text, parse_all=True)
+            r = True
+        except pp.ParseBaseException:
+            r = False
+        if r != ok:
+            return f'string_literal {"accepts" if r else "rejects"} {text!r}'
+
+
+def _shape(e, depth=0, seen=None):
+    """structural fingerprint of a pyparsing element graph (types, literals, results names, action names)"""
+    import pyparsing as pp
+    seen = seen if seen is not None else {}
+    if id(e) in seen:
+        return ('cycle', seen[id(e)])
+    seen[id(e)] = len(seen)
+    head = [type(e).__name__, e.resultsName, bool(getattr(e, 'modalResults', True)),
+            tuple(getattr(a, '__name__', type(a).__name__) for a in e.parseAction)]
+    for attr in ('match', 'pattern', 'initCharsOrig', 'init_chars', 'quote_char', 'quoteChar', 'multiline', 'adjacent',
+                 'minLen', 'maxLen', 'not_chars', 'notChars'):
+        if hasattr(e, attr):
+            v = getattr(e, attr)
+            head.append((attr, v if isinstance(v, (str, int, bool, type(None))) else str(v)))
+    kids = []
+    for sub in getattr(e, 'exprs', None) or []:
+        kids.append(_shape(sub, depth + 1, seen))
+    if getattr(e, 'expr', None) is not None:
+        kids.append(_shape(e.expr, depth + 1, seen))
+    return (tuple(head), tuple(kids))
+
+
+def _diff(a, b, path, out, limit=12):
+    if len(out) >= limit:
+        return
+    if a[0] == 'cycle' or b[0] == 'cycle':
+        if (a[0] == 'cycle') != (b[0] == 'cycle'):
+            out.append((path, 'cycle'))
+        return
+    if a[0] != b[0]:
+        out.append((path, f'{a[0][:2]} vs {b[0][:2]}'))
+        return
+    if len(a[1]) != len(b[1]):
+        out.append((path, f'{a[0][0]}: {len(a[1])} vs {len(b[1])} operands'))
+        return
+    for i, (x, y) in enumerate(zip(a[1], b[1])):
+        _diff(x, y, path + (i,), out, limit)
+
+
+def s_property_column_grammar():
+    """table_column_with_properties is table_column with column_settings_with_properties in place of
+    column_settings, and the latter adds exactly one alternative (C15: nothing else changes)."""
+    import pyparsing as pp
+    import pydbml.definitions.column as CO
+    oa, ob = _flat(CO.table_column, pp.And), _flat(CO.table_column_with_properties, pp.And)
+    if len(oa) != len(ob):
+        return f'the column rules have {len(oa)} and {len(ob)} parts'
+    if tuple(getattr(x, '__name__', '') for x in CO.table_column.parseAction) != \
+            tuple(getattr(x, '__name__', '') for x in CO.table_column_with_properties.parseAction):
+        return 'the two column rules carry different parse actions'
+    differing = [k for k, (x, y) in enumerate(zip(oa, ob)) if _shape(x) != _shape(y)]
+    if len(differing) != 1:
+        return f'the column rules differ in parts {differing} (expected: only the settings part)'
+    x, y = oa[differing[0]], ob[differing[0]]
+    rn = lambda e: e.resultsName or getattr(getattr(e, 'expr', None), 'resultsName', None)
+    if type(x) is not type(y) or rn(x) != rn(y) or rn(y) != 'settings':
+        return f'the differing part is {type(x).__name__}({rn(x)}) vs {type(y).__name__}({rn(y)})'
+
+    def names(e, seen):
+        if id(e) in seen:
+            return set()
+        seen.add(id(e))
+        out = {e.resultsName} if e.resultsName else set()
+        for sub in getattr(e, 'exprs', None) or []:
+            out |= names(sub, seen)
+        if getattr(e, 'expr', None) is not None:
+            out |= names(e.expr, seen)
+        return out
+    na, nb = names(x, set()), names(y, set())
+    if nb != na | {'property'}:
+        return f'results names of the settings part: {sorted(na)} without, {sorted(nb)} with properties'
+    if not set(_literals(x)) <= set(_literals(y)):
+        return 'a literal of the ordinary settings is missing from the settings with properties'
+    if CO.column_setting_with_property.exprs[0] is not CO.column_setting:
+        return 'column_setting_with_property does not start with the ordinary column_setting'
+
+
 CHECKS: List[Tuple[str, Tuple[str, ...], Callable[[], Any], str]] = [
     ('S.registry.sql', ('C16', 'C03'), s_registry_sql, 'the SQL renderer registry is exactly {model class: its handler}'),
     ('S.registry.dbml', ('C16', 'C02'), s_registry_dbml, 'the DBML renderer registry is exactly {model class: its handler}'),
@@ -382,6 +573,10 @@ CHECKS: List[Tuple[str, Tuple[str, ...], Callable[[], Any], str]] = [
     ('S.rules-untouched', ('C11',), s_module_rules_untouched, 'module-level grammar rules keep their action lists across parser constructions'),
     ('S.closed-sets', ('C07',), s_closed_sets, 'index types, reference operators, reference actions and colours are exactly the documented sets'),
     ('S.property-grammar', ('C15',), s_property_grammar_diff, 'the two table grammars differ only by the property alternative'),
+    ('S.no-memo', ('C10', 'C11', 'C18', 'C16'), s_no_memo, 'no cache decorator, weak or module-level container, or non-property descriptor: every rendering and lookup is recomputed'),
+    ('S.dispatch-through-cls', ('C16',), s_dispatch_through_cls, 'renderer methods dispatch through cls; elements render through the owning database\'s renderer class'),
+    ('S.string-tokens', ('C07', 'C13'), s_string_tokens, 'string literal = one of three quoted forms (only the triple-quoted one spans lines, backslash escapes); names are words or double-quoted'),
+    ('S.property-column-grammar', ('C15',), s_property_column_grammar, 'the column grammars with and without properties differ by exactly one added settings alternative'),
     ('S.whitespace', ('C07', 'C01'), s_default_whitespace, 'newline is not default whitespace'),
 ]
 
